@@ -217,3 +217,46 @@ init_agree_harness!(c02_q_init_agree_nk, Pat::NK);
 init_agree_harness!(c02_t_init_agree_k1k1, Pat::K1K1);
 init_agree_harness!(c02_t_init_agree_kn, Pat::KN);
 init_agree_harness!(c02_t_init_agree_x, Pat::X);
+
+/// Every transport payload LENGTH is delivered: writer and reader of both kinds over the length-only oracle cipher,
+/// payload length symbolic in 0..=65519 (the largest that fits a 65535-byte message): the write succeeds with
+/// length + 16 and the peer's read of exactly those bytes returns the payload length.
+#[kani::proof]
+#[kani::unwind(20)]
+pub fn c02_q_transport_any_length() {
+    use crate::stubs::*;
+    use snow::params::HandshakePattern;
+    use snow::verif::MAXDHLEN;
+    use snow::{StatelessTransportState, TransportState};
+    static ZEROS: [u8; 65536] = [0u8; 65536];
+    unsafe {
+        O_COPY = false;
+    }
+    let plen: usize = kani::any();
+    kani::assume(plen <= 65519);
+    let w_stateless: bool = kani::any();
+    let r_stateless: bool = kani::any();
+    let w_initiator: bool = kani::any();
+    let n: u64 = kani::any();
+    kani::assume(n != u64::MAX);
+    let mut msg = [0u8; 65536];
+    let mut out = [0u8; 65536];
+    let (ni, nr) = if w_initiator { (n, 0) } else { (0, n) };
+    let wrote = if w_stateless {
+        let w = StatelessTransportState::verif_from_parts(Box::new(OCipher::<1>), Box::new(OCipher::<2>), HandshakePattern::NN, 4, [0u8; MAXDHLEN], false, w_initiator);
+        w.write_message(n, &ZEROS[..plen], &mut msg)
+    } else {
+        let mut w = TransportState::verif_from_parts(Box::new(OCipher::<1>), ni, Box::new(OCipher::<2>), nr, HandshakePattern::NN, 4, [0u8; MAXDHLEN], false, w_initiator);
+        w.write_message(&ZEROS[..plen], &mut msg)
+    };
+    kani::cover!(wrote == Ok(65535), "C02 maximum-size transport message reachable");
+    assert!(wrote == Ok(plen + 16), "C02: an honest transport payload was not written");
+    let got = if r_stateless {
+        let r = StatelessTransportState::verif_from_parts(Box::new(OCipher::<4>), Box::new(OCipher::<5>), HandshakePattern::NN, 4, [0u8; MAXDHLEN], false, !w_initiator);
+        r.read_message(n, &msg[..plen + 16], &mut out)
+    } else {
+        let mut r = TransportState::verif_from_parts(Box::new(OCipher::<4>), ni, Box::new(OCipher::<5>), nr, HandshakePattern::NN, 4, [0u8; MAXDHLEN], false, !w_initiator);
+        r.read_message(&msg[..plen + 16], &mut out)
+    };
+    assert!(got == Ok(plen), "C02: an honest transport message of a legal length was not delivered");
+}
